@@ -238,7 +238,7 @@ static void p0_run(uint64_t idx, vh_rng_t * rng) {
         else { line_unit[nlines++] = u; vh_buf_adds(&expect_log, "E -113\n"); }
     }
     g_inv = 0; g_iscmd_self_false = g_iscmd_other_true = 0;
-    if (via_flush) { size_t n = msg.len; while (n && (msg.p[n - 1] == '\n' || msg.p[n - 1] == '\r')) n--; (void) n; vh_deliver(v, msg.p, msg.len, 1 + (int) (idx + (uint64_t) mi) % 2); vh_count("messages.ended_by_zero_length_input_call", 1);
+    if (via_flush) { size_t n = msg.len; while (n && (msg.p[n - 1] == '\n' || msg.p[n - 1] == '\r')) n--; vh_deliver(v, msg.p, msg.len, msg.len - n, 1 + (int) (idx + (uint64_t) mi) % 2); vh_count("messages.ended_by_zero_length_input_call", 1);
         if (g_trailing_empty && mi + 1 < nmsg) vh_count("messages.ended_by_separator_and_zero_length_call_followed_by_another_message", 1); }
     else vh_input(v, msg.p, msg.len);
     if (mi > 0) vh_count("messages.on_a_context_that_served_earlier_messages", 1);
